@@ -49,6 +49,15 @@ class ConnRef;
 typedef std::list<Obstacle *> ObstacleList;
 typedef std::list<ConnRef *> ConnRefList;
 
+// Orders the ConnEnds attached to an obstacle by the ID of their connector
+// and then by which end of that connector they are, rather than by pointer
+// value, so their order does not depend on where they were allocated.
+struct CmpConnEndPtrByConn
+{
+    bool operator()(const ConnEnd *lhs, const ConnEnd *rhs) const;
+};
+typedef std::set<ConnEnd *, CmpConnEndPtrByConn> ConnEndPtrSet;
+
 
 // @brief   The Obstacle class represents an obstacle that must be 
 //          routed around.  Superclass of ShapeRef and JunctionRef.
@@ -137,7 +146,7 @@ class Obstacle
         ObstacleList::iterator m_router_obstacles_pos;
         VertInf *m_first_vert;
         VertInf *m_last_vert;
-        std::set<ConnEnd *> m_following_conns;
+        ConnEndPtrSet m_following_conns;
         ShapeConnectionPinSet m_connection_pins;
 };
 
